@@ -131,6 +131,64 @@ def stale_failover(side, dup_tail):
     return 'C07 5 %s - ; %s' % (fs, ' ; '.join(steps))
 
 
+# Membership recovery (C13_reconverge on the real proxies): the broker restarts from a snapshot that disagrees with the proxies about
+# cluster MEMBERSHIP, not only about epochs; epoch recovery is run as the service composes it (max proxy epoch + 2), then fault-free rounds.
+# `addclusterx c n` / `rmclusterx c` create / remove cluster c<c>; 8 nodes = all four proxies, 4 nodes = two of them.
+def membership_recovery_cases():
+    pre = SETUP4
+    tail = ['quiet', 'mig 8', 'meta 9', 'meta 9']
+    fam = []
+    for na in (4, 8):
+        # (1) P in cluster A in the snapshot, P serving cluster B at a higher epoch (lost suffix: remove A, create B on P)
+        fam.append([pre, 'addclusterx 1 %d' % na, 'meta 1', 'snapshot', 'rmclusterx 1', 'meta 1', 'addclusterx 2 8', 'meta 2', 'restore', 'recover'] + tail)
+        # the same with the release and the allocation falling between two sync rounds before the loss
+        fam.append([pre, 'addclusterx 1 %d' % na, 'meta 1', 'snapshot', 'rmclusterx 1', 'addclusterx 2 8', 'meta 2', 'restore', 'recover'] + tail)
+        # (1') the other way round: the snapshot has B (on every proxy), the proxies serve A
+        fam.append([pre, 'addclusterx 2 8', 'meta 1', 'snapshot', 'rmclusterx 2', 'meta 1', 'addclusterx 1 %d' % na, 'meta 2', 'restore', 'recover'] + tail)
+        # (2) P free in the snapshot but serving a cluster
+        fam.append([pre, 'meta 1', 'snapshot', 'addclusterx 1 %d' % na, 'meta 2', 'restore', 'recover'] + tail)
+        # (3) P in a cluster in the snapshot but free (at a higher epoch) on the proxy
+        fam.append([pre, 'addclusterx 1 %d' % na, 'meta 1', 'snapshot', 'rmclusterx 1', 'meta 2', 'restore', 'recover'] + tail)
+        # (4) no recovery: release from A and allocation to B between two sync rounds, the proxy sees A -> B directly
+        fam.append([pre, 'addclusterx 1 %d' % na, 'meta 1', 'rmclusterx 1', 'addclusterx 2 8'] + tail)
+    # a lost suffix that also changed the layout inside the same cluster, and a proxy restarted after the loss
+    fam.append([pre, 'addclusterx 1 4', 'meta 1', 'snapshot', 'addnodes 4', 'meta 2', 'restore', 'recover', 'restart 2'] + tail)
+    return ['C07 4 - - ; ' + ' ; '.join(st) for st in fam]
+
+
+def run_membership_recovery(chk):
+    """Entry point for checks/C13.py: the membership-recovery scenarios through the ctrl harness (real coordinator rounds, real MetaStore,
+    real proxies) against Model/Ctrl.v, with C13_reconverge's conclusion evaluated on the real proxies."""
+    probs = chk.build_models('ctrl') + chk.build_impl('ctrl')
+    for p_ in probs:
+        chk.violation({'kind': 'correspondence-build', 'correspondence': 'harness/ctrl (membership recovery scenarios)', 'detail': p_}, no_input=True)
+    if probs:
+        return
+    lines = membership_recovery_cases()
+    impl, parsed, model = run_both(chk, lines, jobs=4)
+    nbad, ndis = 0, 0
+    for i, c in enumerate(lines):
+        p_ = parsed[i] if i < len(parsed) else None
+        chk.count(c, True)
+        if p_ is None:
+            nbad += 1
+            chk.violation({'kind': 'monitor', 'harness': 'ctrl', 'case': c, 'impl': (impl[i] if i < len(impl) else '')[:2000],
+                           'what': 'the ctrl harness produced no observation', 'replay_with': './check C07 --replay <this file>'})
+            continue
+        prog, segs, z = p_
+        bad = monitor(c, prog, segs, z)
+        m = model[i] if i < len(model) else ''
+        if bad:
+            nbad += 1
+            chk.violation({'kind': 'monitor', 'harness': 'ctrl', 'case': c, 'impl': impl[i][:6000], 'model': m[:3000], 'what': bad[:5],
+                           'replay_with': './check C07 --replay <this file>'})
+        elif m != 'O ' + ' ; '.join(segs):
+            ndis += 1
+            chk.violation({'kind': 'correspondence', 'correspondence': 'Model/Ctrl.v vs coordinator + proxies (membership recovery)', 'first': {'case': c}},
+                          no_input=True)
+    chk.sub('membership_recovery_via_ctrl_harness', cases=len(lines), monitor_failures=nbad, disagreements=ndis)
+
+
 # boundaries: shape A: set-up rounds use 0..25, the faulty window (mig + meta) is 26..57 in a fault-free run
 A_LO, A_HI = 26, 58
 B_LO, B_HI = 0, 48
@@ -149,6 +207,8 @@ def gen_cases(chk):
     cases.append(('corpus', shape_a({27: 'noreply'}, [])))
     cases.append(('corpus', shape_a({30: 'delay', 31: 'delay'}, [], tail_extra=['replay 30', 'replay 31'])))
     cases.append(('corpus', shape_b({14: 'noreply', 20: 'delay', 23: 'crash'}, [(30, 'replay', 20)], 2)))
+    for line in membership_recovery_cases():
+        cases.append(('membership-recovery', line))
     for held in (1, 2):
         cases.append(('stale-commit', stale_scale_in(held, {})))
         cases.append(('stale-commit', stale_scale_in(held, {'M%d' % (3 - held): 'dup'})))
@@ -290,14 +350,17 @@ def monitor(case, prog, segs, z):
     by_a = {}
     for t, a, ep, vid, ch, rh in rows:
         by_a.setdefault(a, []).append((t, ep, vid))
+    # a restart from a snapshot (C13) ends the history the two hypotheses speak about: they are tested per segment
+    restores = sorted(int(x) for x in z.get('restores', '-').split(',') if x.isdigit())
+    seg_of = lambda t: sum(1 for r_ in restores if r_ <= t)
     for a, l in by_a.items():
         l.sort()
         for (t1, e1, v1), (t2, e2, v2) in zip(l, l[1:]):
-            if e2 < e1:
+            if e2 < e1 and seg_of(t1) == seg_of(t2):
                 bad.append('hypothesis served_mono fails on the real broker: proxy %d epoch %d at time %d after %d at time %d' % (a, e2, t2, e1, t1))
         seen = {}
         for t, e, v in l:
-            if seen.setdefault(e, v) != v:
+            if seen.setdefault((seg_of(t), e), v) != v:
                 bad.append('hypothesis served_same_epoch_same_content fails on the real broker: proxy %d epoch %d served with two contents' % (a, e))
     # never older: a proxy's epoch only decreases at a restart
     prev = {}
@@ -507,7 +570,7 @@ def run(chk):
         if re.search(r'c\.\d+\.ok', o):
             stats['cases_with_migration_commit'] += 1
         reached = [int(x.split(':')[0]) for x in re.findall(r'(?<![M\d])(\d+:[a-z]+)', c.split(';')[0])]
-        nontrivial = kind in ('corpus', 'stale-commit') or any(x < nb for x in reached)
+        nontrivial = kind in ('corpus', 'stale-commit', 'membership-recovery') or any(x < nb for x in reached)
         if nontrivial and kind != 'corpus':
             stats['faults_reached'] += 1
         chk.count(c, nontrivial)
